@@ -6,6 +6,7 @@ import time
 
 from harness import core
 from harness.suites import faithful
+from harness.suites import fe_compile
 
 
 MANIFEST = dict(
@@ -120,6 +121,12 @@ def run(ck):
             # driver missing / op unknown: an infrastructure gap of the Lean side, not a verdict on stone
             ck.broken.append({'kind': 'correspondence', 'name': 'graph.linearize', 'detail': str(e)[:600]})
 
+    # the Lean model of the IR generator's core against the real IRGenerator (+ direct oracles on the real objects)
+    try:
+        _timed(ck, 'comp.compile', fe_compile.suite_compile, ck)
+    except RuntimeError as e:
+        ck.broken.append({'kind': 'correspondence', 'name': 'comp.compile', 'detail': str(e)[:600]})
+
     apis = _timed(ck, 'faithful', faithful.suite_faithful, ck, ck.scale(40, 400))
     _timed(ck, 'invariants', faithful.suite_invariants, ck, apis, n_mut_models=ck.scale(80, 400), n_mut=ck.scale(15, 20))
     ck.assumptions.extend([
@@ -146,6 +153,10 @@ def replay(ck, path):
         print('(no failing input recorded: re-run ./check C02 to re-evaluate the broken obligation)')
         return 1
     case = rec.get('case') or {}
+    if case.get('suite') == 'comp.members':
+        still = fe_compile.replay_case(ck, case)
+        print(' => the recorded failure %s' % ('still shows' if still else 'no longer shows'))
+        return 1 if still else 0
     if case.get('suite') == 'graph.linearize':
         case = dict(case, suite='invariants')
     still = faithful.replay_case(ck, case)
